@@ -513,6 +513,10 @@ func changeStoreMapping(oldMapping, newMapping mapping.IndexMapping, oldStore, n
 			lowerIntersectionBound := math.Max(outLowerBound, inLowerBound)
 			higherIntersectionBound := math.Min(outHigherBound, inHigherBound)
 			intersectionSize := higherIntersectionBound - lowerIntersectionBound
+			if intersectionSize <= 0 {
+				// Because of rounding, a bin that only touches the range may be visited.
+				continue
+			}
 			proportion := intersectionSize / inSize
 			newStore.AddWithCount(outIndex, proportion*count)
 		}
